@@ -59,7 +59,7 @@ def cps(s):
 def project(svg, scale=8.0, want_style=False, want_raw=False):
     num = Num(scale)
     doc = {"wf": 1, "w": 0, "h": 0, "rootcls": [], "ns": 0, "nroot": 0,
-           "elems": [], "nstyle": 0, "ndefs": 0, "nbackdrop": 0,
+           "elems": [], "nstyle": 0, "ndefs": 0, "nbackdrop": 0, "markers": [],
            "foreign": [],       # element names outside svgbob's vocabulary, misplaced nodes
            "attrs_foreign": [],  # [element, attribute] outside the per-element vocabulary
            "comments": 0, "pis": 0, "doctype": 0, "cdata": 0, "entities": 0,
@@ -143,6 +143,27 @@ def project(svg, scale=8.0, want_style=False, want_raw=False):
                 doc["foreign"].append("defs@%d" % depth)
             return
         if in_defs[0]:
+            # marker definitions, in 1/64 of their own units (they are not user-space lengths and are never divided by
+            # the scale): [id, viewBox w, h, refX, refY, markerWidth, markerHeight] and the shape inside
+            def m64(v):
+                try:
+                    return int(round(float(Fraction(v.strip()) * 64)))
+                except Exception:
+                    return -1
+            if local == "marker":
+                vb = (attrs.get("viewBox", "") + " x x x x").replace(",", " ").split()[:4]
+                doc["markers"].append({"id": cps(attrs.get("id", "")), "vb": [m64(x) for x in vb],
+                                       "ref": [m64(attrs.get("refX", "x")), m64(attrs.get("refY", "x"))],
+                                       "size": [m64(attrs.get("markerWidth", "x")), m64(attrs.get("markerHeight", "x"))],
+                                       "shape": "", "n": [], "cls": []})
+            elif doc["markers"] and local in ("circle", "polygon"):
+                mk = doc["markers"][-1]
+                mk["shape"] = local
+                mk["cls"] = cls
+                if local == "circle":
+                    mk["n"] = [m64(attrs.get(a, "x")) for a in ("cx", "cy", "r")]
+                else:
+                    mk["n"] = [m64(v) for pt_ in attrs.get("points", "").split() for v in pt_.split(",")]
             return
         if local == "g":
             group_no[0] += 1
@@ -245,7 +266,7 @@ def project(svg, scale=8.0, want_style=False, want_raw=False):
                 "nstyle": 0, "ndefs": 0, "nbackdrop": 0, "foreign": [], "attrs_foreign": [], "comments": 0, "pis": 0,
                 "doctype": 0, "cdata": 0, "entities": 0, "entityrefs": 0, "stray_text": 0, "order": [], "style": [],
                 "stylelen": 0, "badnum": 0, "inexact": 0, "overflow": 0, "whnum": 0, "backdrop": [], "ws_between": 0,
-                "clstok": [], "namestok": []}
+                "clstok": [], "namestok": [], "markers": []}
     # literal entity references other than the five predefined ones and numeric ones
     doc["entityrefs"] = len([m for m in re.findall(r"&([^;\s]{1,32});", svg)
                              if m not in ("lt", "gt", "amp", "apos", "quot") and not m.startswith("#")])
